@@ -51,6 +51,8 @@ ErrClass(er) == IF er.e \in ArithErrors THEN "arith"
                 ELSE IF er.e \in ArgErrors THEN "arity"
                 ELSE er.e
 
+JErr(e) == [e |-> e.e, a |-> JVal(e.a), b |-> JVal(e.b), n |-> e.n, x |-> e.x, y |-> e.y, ts |-> e.ts]
+
 Ok(v) == [ok |-> TRUE, v |-> v, e |-> NoErr]
 Er(e) == [ok |-> FALSE, v |-> VEmpty, e |-> e]
 =============================================================================
